@@ -242,7 +242,7 @@ EVENTS = [
     ('pad', (300, 800), 'min', 'constant', None), ('pad', (350, 700), 'min', 'edge', None), ('pad', (390, 710), 20, 'constant', (1, 2)),
     ('pad', (-5, 800), 'min', 'constant', None),
     ('append', 'legal'), ('append', 'overlap'), ('append', 'longer'), ('append', 'notspectrum'), ('append', 'interleaved'), ('append', 'legal-copy'),
-    ('resample', 'inside'), ('resample', 'nodes'), ('resample', 'decreasing'), ('resample', 'duplicate'), ('resample', 'nonpositive'),
+    ('resample', 'inside'), ('resample', 'nodes'), ('resample', 'decreasing'), ('resample', 'duplicate'), ('resample', 'nonpositive'), ('resample', 'zero'),
     ('resample', 'wider'),
 ]
 
@@ -283,6 +283,7 @@ def apply_event(s, ev):
                     'decreasing': np.array([lo + 0.5 * (hi - lo), lo + 0.25 * (hi - lo), hi]),
                     'duplicate': np.array([lo, lo, hi]),
                     'nonpositive': np.array([-1.0, lo, hi]),
+                    'zero': np.array([0.0, lo, hi]),
                     'wider': np.linspace(lo * 0.9, hi * 1.1, 5)}[ev[1]]
             s.resample(grid)
         return None, None
@@ -427,7 +428,7 @@ def step_check(s, ev, sub, acc):
                 acc.violation(f'resize:append:{ev[1]}:accepted', sub, f'illegal append ({ev[1]}) was accepted: {w0.tolist()} -> {w1.tolist()}')
                 return False
     elif kind == 'resample':
-        if ev[1] in ('decreasing', 'duplicate', 'nonpositive'):
+        if ev[1] in ('decreasing', 'duplicate', 'nonpositive', 'zero'):
             acc.violation(f'resize:resample:{ev[1]}:accepted', sub, 'invalid wavelength grid accepted')
             return False
     return True
